@@ -1,4 +1,4 @@
-"""C01 R10: a call the muxer rejects leaves no trace.
+"""C01 R11: a call the muxer rejects leaves no trace.
 
 For every function reachable from the muxer's accepting entry points (Mp4Writer::write_sample, Mp4Writer::add_track) through
 local calls, on no CFG path does a *rejection* (a crate `Error` value other than the I/O wrapper being built, or a call of a
@@ -100,7 +100,7 @@ def closure(fx, cg_callees, roots):
     return seen
 
 
-def run(fx, chk, mods, roots, rule="R10"):
+def run(fx, chk, mods, roots, rule="R11"):
     iov = _io_variants(fx)
     chk.require(bool(iov), rule, "io-variant", "the error enum wraps std::io::Error in %s" % sorted(iov), "no variant of error::Error wraps std::io::Error: I/O faults cannot be told from rejections")
     fns = closure(fx, None, roots)
